@@ -26,7 +26,7 @@ LISTATTR = {"library": "_libraries", "definition": "_definitions", "port": "_por
 BACK = {"library": "_netlist", "definition": "_library", "port": "_definition", "cable": "_definition", "instance": "_parent"}
 GET = {"library": sdn.get_libraries, "definition": sdn.get_definitions, "port": sdn.get_ports, "cable": sdn.get_cables, "instance": sdn.get_instances}
 MAXN = {"netlist": 2, "library": 3, "definition": 3, "port": 4, "cable": 3, "instance": 3}
-NAMES = ["a", "A", "ab", "Ab", "b"]
+NAMES = ["a", "A", "ab", "Ab", "b", ""]          # the empty string is a name like any other
 IDENTS = ["a", "A", "ab", "Ab", "aB", "&1", "b_", "1x", "a-b", "&"]
 KEYSTR = {"name": ".NAME", "ident": "EDIF.identifier"}
 
@@ -424,6 +424,18 @@ def scenario_prefix(rng):
     r = rng.random()
     leafk = rng.choice(["port", "cable", "instance"])
     bad = rng.choice(["1x", "a-b", "&"])
+    if rng.random() < 0.2:
+        # a table REBUILT from the children (policy switched forth and back, or first use of a clone) must hold every
+        # name the incrementally kept one held - then a second sibling of that name
+        nm = rng.choice(NAMES)
+        ops = [{"t": "create", "e": ["definition", 0]}, {"t": "createIn", "p": ["definition", 0], "c": [leafk, 0], "name": nm, "ident": None}]
+        if rng.random() < 0.5:
+            ops += [{"t": "setNs", "e": ["definition", 0], "pol": "EDIF"}, {"t": "setNs", "e": ["definition", 0], "pol": "DEFAULT"},
+                    {"t": "createIn", "p": ["definition", 0], "c": [leafk, 1], "name": nm, "ident": None}]
+        else:
+            ops += [{"t": "clone", "e": ["definition", 0], "off": 1},
+                    {"t": "createIn", "p": ["definition", 1], "c": [leafk, 2], "name": nm, "ident": None}]
+        return ops
     if r < 0.35:
         ops = [{"t": "create", "e": ["definition", 0]}, {"t": "create", "e": [leafk, 0]},
                {"t": "setKey", "e": [leafk, 0], "k": "ident", "v": rng.choice([bad, "Ab"])},
